@@ -127,4 +127,84 @@ theorem pf_endBlock (m : MS) (k : BlockKind) : PF (α := α) m (endBlock (α := 
   unfold endBlock; pf
 macro_rules | `(tactic| pf_leaf) => `(tactic| with_reducible exact pf_endBlock _ _)
 
+/-! ### what a `Metadata` event does to the metadata part depends only on that part -/
+
+structure SM {β : Type} (f f' : A α β) : Prop where
+  run : ∀ s s', s.ms = s'.ms → (f s).1 = (f' s').1 ∧ (f s).2.ms = (f' s').2.ms
+
+theorem SM.pure {β : Type} (a : β) : SM (α := α) (pure a) (pure a) := ⟨fun _ _ h => ⟨rfl, h⟩⟩
+
+theorem SM.bind {β γ : Type} {f f' : A α β} {g g' : β → A α γ}
+    (hf : SM f f') (hg : ∀ a, SM (g a) (g' a)) : SM (f >>= g) (f' >>= g') := by
+  refine ⟨fun s s' h => ?_⟩
+  have h1 := hf.run s s' h
+  have h2 := (hg (f s).1).run (f s).2 (f' s').2 h1.2
+  have e1 : (f >>= g) s = g (f s).1 (f s).2 := rfl
+  have e2 : (f' >>= g') s' = g' (f' s').1 (f' s').2 := rfl
+  rw [e1, e2, ← h1.1]
+  exact h2
+
+theorem SM.get_bind {γ : Type} {g g' : Col α → A α γ}
+    (hg : ∀ s0 s0' : Col α, s0.ms = s0'.ms → SM (g s0) (g' s0')) :
+    SM ((get : A α (Col α)) >>= g) ((get : A α (Col α)) >>= g') :=
+  ⟨fun s s' h => (hg s s' h).run s s' h⟩
+
+theorem SM.set (x x' : Col α) (h : x.ms = x'.ms) : SM (α := α) (set x : A α PUnit) (set x') :=
+  ⟨fun _ _ _ => ⟨rfl, h⟩⟩
+
+theorem SM.modify (k : Col α → Col α) (h : ∀ s s', s.ms = s'.ms → (k s).ms = (k s').ms) :
+    SM (α := α) (modify k : A α PUnit) (modify k) := ⟨fun s s' hs => ⟨rfl, h s s' hs⟩⟩
+
+theorem sm_modify_pres (k : Col α → Col α) (h : ∀ s, (k s).ms = s.ms) :
+    SM (α := α) (modify k : A α PUnit) (modify k) :=
+  SM.modify k (fun s s' hs => by rw [h, h]; exact hs)
+
+theorem ms_eq {s s' : Col α} (h : s.ms = s'.ms) :
+    s.metaMap = s'.metaMap ∧ s.frontMatter = s'.frontMatter ∧ s.metaLocs = s'.metaLocs ∧
+    s.servings = s'.servings ∧ s.oldStyle = s'.oldStyle ∧ s.oldStyleUsed = s'.oldStyleUsed :=
+  ⟨congrArg MS.metaMap h, congrArg MS.frontMatter h, congrArg MS.metaLocs h, congrArg MS.servings h,
+   congrArg MS.oldStyle h, congrArg MS.oldStyleUsed h⟩
+
+macro "ms_tac" : tactic => `(tactic| (
+  intro s s' h
+  obtain ⟨h1, h2, h3, h4, h5, h6⟩ := ms_eq h
+  simp only [Col.ms, h1, h2, h3, h4, h5, h6]))
+
+theorem sm_apanic (site : String) : SM (α := α) (apanic site) (apanic site) := by
+  unfold apanic
+  apply sm_modify_pres
+  intro s; split <;> rfl
+theorem sm_aerr (k : String) (l : List Span) : SM (α := α) (aerr k l) (aerr k l) := by
+  unfold aerr; exact sm_modify_pres _ (fun _ => rfl)
+theorem sm_awarn (k : String) (l : List Span) : SM (α := α) (awarn k l) (awarn k l) := by
+  unfold awarn; exact sm_modify_pres _ (fun _ => rfl)
+
+syntax "smc_leaf" : tactic
+macro_rules | `(tactic| smc_leaf) => `(tactic| with_reducible exact SM.pure _)
+macro_rules | `(tactic| smc_leaf) => `(tactic| with_reducible exact sm_apanic _)
+macro_rules | `(tactic| smc_leaf) => `(tactic| with_reducible exact sm_aerr _ _)
+macro_rules | `(tactic| smc_leaf) => `(tactic| with_reducible exact sm_awarn _ _)
+macro_rules | `(tactic| smc_leaf) => `(tactic| (with_reducible apply SM.modify) <;> ms_tac)
+macro_rules | `(tactic| smc_leaf) => `(tactic| (with_reducible apply SM.set) <;> (simp only [Col.ms, *]))
+
+syntax "smt" : tactic
+macro_rules | `(tactic| smt) => `(tactic| repeat' (first
+  | intro _
+  | smc_leaf
+  | dsimp only
+  | (with_reducible apply SM.get_bind
+     intro s0 s0' h
+     obtain ⟨h1, h2, h3, h4, h5, h6⟩ := ms_eq h
+     try simp only [h3, h5])
+  | with_reducible apply SM.bind
+  | split))
+
+theorem sm_timeOverrideCheck (k : StdKey) : SM (α := α) (timeOverrideCheck (α := α) k) (timeOverrideCheck k) := by
+  unfold timeOverrideCheck; smt
+macro_rules | `(tactic| smc_leaf) => `(tactic| with_reducible exact sm_timeOverrideCheck _)
+
+theorem sm_metadataA (env : Env) (k v : Text) : SM (α := α) (metadataA (α := α) env k v) (metadataA env k v) := by
+  unfold metadataA; smt
+
+
 end Cook
